@@ -635,6 +635,7 @@ pub fn gen_case(seed: u64, idx: u64) -> (ThrCase, Rng) {
         // many leaves should call out: filters / selects / customs are where a switch can land
         let mut g = gram::generate(&mut rng, &gcfg);
         strip_unsupported(&mut g);
+        gram::fixup(&mut g, gcfg.nsym);
         let n = rng.range(2, 4) as usize;
         let mut pool = Vec::new();
         for _ in 0..n {
@@ -667,16 +668,21 @@ pub fn gen_case(seed: u64, idx: u64) -> (ThrCase, Rng) {
 /// The sync builder has no Rec / nested_delimiters: replace them by their first child / plain recovery.
 fn strip_unsupported(g: &mut G) {
     use gram::Strat;
-    if let G::Recover(a, Strat::Nested(..)) = g {
-        let inner = std::mem::replace(&mut **a, G::Empty);
-        *g = inner;
-    }
-    if let G::Rec(b) = g {
-        let inner = std::mem::replace(&mut **b, G::Empty);
-        *g = inner;
-    }
-    if let G::RecRef = g {
-        *g = G::Just(0);
+    loop {
+        match g {
+            G::Recover(a, Strat::Nested(..)) => {
+                let inner = std::mem::replace(&mut **a, G::Empty);
+                *g = inner;
+            }
+            G::Rec(b) => {
+                let inner = std::mem::replace(&mut **b, G::Empty);
+                *g = inner;
+            }
+            G::RecRef => {
+                *g = G::Just(0);
+            }
+            _ => break,
+        }
     }
     for c in gram::children_mut(g) {
         strip_unsupported(c);
